@@ -12,8 +12,8 @@ RULE = ("for every width N in 8..256: the boundary integers -2^(N-1)-1, -2^(N-1)
         "bytesN with N-1, N, N+1 bytes for every N; fixed arrays T[k] with k-1, k, k+1 elements; missing / undeclared member; "
         "undefined struct type; wrong-kind matrix (7 JSON kinds x 8 type kinds); each offence also planted at a random position "
         "inside nested structs and arrays; expected: accepted iff conforming; a case is distinct by its document")
-TRUSTED = ["C09: ethnum permissive I256/U256 parsing, hex decoding, ethaddr parsing as stated in Model/Num.v; serde_json tokenisation "
-           "outside the model", "C09: inputs >= 4 GiB (the repaired bytesN length truncation) are not exercised in either tier"]
+TRUSTED = ["C09: ethnum permissive I256/U256 parsing, hex decoding, ethaddr parsing as stated in Model/Num.v; serde_json's reading of the bytes is "
+           "modelled in Model/JsonText.v and compared on every run (json-text-vs-model); its floating-point reader is compared up to 2 ulp, not modelled", "C09: inputs >= 4 GiB (the repaired bytesN length truncation) are not exercised in either tier"]
 
 
 def doc(ty, value, extra_types=None, raw_value=False):
